@@ -99,3 +99,7 @@ impl<T> PartialEq for IndexSet<T> {
     #[verifier::external_body]
     fn eq(&self, other: &Self) -> (b: bool) ensures b == same_elements(self@, other@) { unimplemented!() }
 }
+
+/// Rust allocation limit: a Vec (hence an IndexSet) of a non-zero-sized element type holds at most isize::MAX elements
+pub axiom fn axiom_indexset_len<T>(s: &IndexSet<T>)
+    ensures s@.len() <= isize::MAX;
